@@ -1,56 +1,25 @@
 (** Decidable, purely syntactic predicates over an input line naming the
     crash / hang classes of C05 whose mechanism is modelled under OTHER
-    properties (C10 variable expansion, C11 command substitution, C12 brace
-    ranges, C19 calculator).  They are deliberately wide: a line inside a
-    class is still run, and only the class's own failure mode (a hang for the
-    expansion loops, a panic for the integer overflows) is tolerated there.
+    properties.  After the repairs e586def, 85ca576, 3746800, c1ba25a, 1ce9d84
+    and baff407 in /repo a single one is left (C19, calculator recursion
+    depth).  A line inside a class is still run, and only the class's own
+    failure mode (the process aborts) is tolerated there.
     drive/c05.py mirrors these functions and compares its answer with the
     extracted ones on every generated line. *)
 From Cicada Require Import Base.Chars Model.Tokenizer Model.Redirect.
 Local Open Scope N_scope.
 
-Fixpoint prefix_of (p s : str) : bool :=
-  match p with
-  | [] => true
-  | x :: p' => match s with y :: s' => (x =? y) && prefix_of p' s' | [] => false end
-  end.
-
-Fixpoint contains_sub (p s : str) : bool :=
-  prefix_of p s || match s with [] => false | _ :: r => contains_sub p r end.
-
-(** longest run of ASCII digits *)
-Fixpoint digit_run (s : str) (cur best : nat) : nat :=
-  match s with
-  | [] => Nat.max cur best
-  | c :: r => if is_digit c then digit_run r (S cur) best else digit_run r 0 (Nat.max cur best)
-  end.
-
 Fixpoint count_char (c : char) (s : str) : nat :=
   match s with [] => 0 | x :: r => ((if x =? c then 1 else 0) + count_char c r)%nat end.
 
-Inductive fclass := FRange | FArith | FSubst | FNlDollar | FSelfRef | FBraceOpen | FHereString.
+Inductive fclass : Set := FCalcDeep.
 
-(** C12: a brace range with an operand of ten digits or more (the i32 limits have ten) *)
-Definition k_range (l : str) : bool :=
-  has_char c_lb l && contains_sub [c_dot; c_dot] l && Nat.leb 10 (digit_run l 0 0).
-(** C19: an arithmetic line with a literal of 19 digits or more, or a power *)
-Definition k_arith (l : str) : bool :=
-  is_arithmetic l && (Nat.leb 19 (digit_run l 0 0) || has_char c_caret l).
-(** C11: a dollar and an opening parenthesis (quotes or a backslash may stand between them
-    and are removed by the tokenizer) or a backquote, and a redirection sign *)
-Definition k_subst (l : str) : bool :=
-  ((has_char c_dollar l && has_char c_lp l) || has_char c_bq l) && (has_char c_gt l || has_char c_lt l).
-(** C02/C08: a here-string (the shell dies with SIGPIPE when nobody reads it) *)
-Definition k_herestring (l : str) : bool := contains_sub [c_lt; c_lt; c_lt] l.
-(** C10: a newline and a dollar *)
-Definition k_nl_dollar (l : str) : bool := has_char c_nl l && has_char c_dollar l.
-(** C10: an assignment and two dollars (a value holding a reference, then a use) *)
-Definition k_selfref (l : str) : bool := has_char c_eq l && Nat.leb 2 (count_char c_dollar l).
-(** C10: a dollar-brace reference *)
-Definition k_brace_open (l : str) : bool := contains_sub [c_dollar; c_lb] l.
+(** C19 [stack_overflow]: an arithmetic line nested a thousand parentheses deep or with a
+    chain of a thousand powers: the recursive pest / Pratt parsers of the calculator exhaust
+    the stack (SIGABRT).  Unreachable within the 200 characters of the generated lines;
+    exercised by one corpus line. *)
+Definition k_calc_deep (l : str) : bool :=
+  is_arithmetic l && (Nat.leb 1000 (count_char c_lp l) || Nat.leb 1000 (count_char c_caret l)).
 
 Definition known_foreign (l : str) : list fclass :=
-  (if k_range l then [FRange] else []) ++ (if k_arith l then [FArith] else []) ++
-  (if k_subst l then [FSubst] else []) ++ (if k_nl_dollar l then [FNlDollar] else []) ++
-  (if k_selfref l then [FSelfRef] else []) ++ (if k_brace_open l then [FBraceOpen] else []) ++
-  (if k_herestring l then [FHereString] else []).
+  if k_calc_deep l then [FCalcDeep] else [].
